@@ -382,7 +382,9 @@ example :
 /-- The pure receiver step IS what `receiveData` (`_receive_data_chunk` inside the whole-endpoint automaton of
 `Model/Sctp/Endpoint.lean`) computes: on an endpoint whose receive fields are `(rx, inStreams)`, whenever
 `Recv.step` returns `ok (r', msgs)` the handler continues with `deliver msgs` (= `_receive` for each message, in
-order) on a state whose receive fields are `r'`. -/
+order) on a state whose receive fields are `r'`.  (Both include the guard that drops a chunk whose TSN is still
+waiting in its stream's reassembly queue — the `fix:` for the "duplicate chunk in reassembly" assertion; under the
+receiver invariant of this file it never fires.) -/
 theorem endpoint_receive_refines (c : RChunk) (e : Ep) (l : List Out) (rx : Rx) (r' : Recv) (msgs : List Msg)
     (hrx : e.rx = some rx) (hstep : Recv.step { rx := rx, streams := e.inStreams } c = .ok (r', msgs)) :
     ∃ e', (receiveData c).run.run (e, l) = (deliver msgs).run.run (e', l)
